@@ -14,6 +14,7 @@ PROOF_TARGETS = ['coq/C16/Proofs.vo']
 PROPS_FILE = 'coq/Props/C16.v'
 RUN_MODULE = 'QCE.C16.Run'
 COQ_HEADER = 'From Gen Require Import Layouts.\nFrom QCE Require Import C16.Spec C16.Model.'
+REPEAT_REVERSED = True     # every case is evaluated twice per run, the second time in reversed order in the same processes
 IMPL = 'harness/impl/c16_impl.py'
 IMPL_KW = {'shards': 12}
 SHARD = 32
